@@ -623,7 +623,7 @@ func (c *codegen) markIfaceEffects(call *ast.CallExpr, local func(string) bool, 
 		}
 	case kStruct:
 		k := fnKey{goStruct(t.name), f.Sel.Name}
-		if !c.whiteSet[k] || c.busy[k] {
+		if !c.whiteSet[k] || c.busy[k] || c.spOf[spKey{"", k.recv, k.name}] != nil { // code_osap.go: an opaque method is handled by markSPEffects
 			return
 		}
 		c.ensure(k, call)
